@@ -33,7 +33,7 @@ func init() { core.Register(prop{}) }
 func (prop) ID() string    { return "C16" }
 func (prop) Level() string { return "exploration" }
 func (prop) Rule() string {
-	return "scenario = one agent session over the real Disco transport carrying 1..4 multiplexed virtual connections (hello, 0..20 data messages of 0..4000 stamped bytes, eof), all interleavings of the per-connection sequences for 2x4 messages (70) and (thorough) 3x3 (1680), seeded interleavings beyond, UDP relay messages, unknown and duplicate connection ids, agent disconnect mid-stream, and a seeded subset in which the yield point parks the service's reader between its buffer check and its wait while data and EOF arrive; plus codec round trips of every message type against an independent encoder/decoder (IPv4/IPv6, all 65,536 ports, payload lengths 0..65000). Non-trivial = a session in which >=1 virtual connection delivered bytes to the service; distinct by scenario parameters. Also connections that share one remote ip:port and differ in the local port (same-remote). One seeded scenario in six opens a shadow session: a second agent on the same listener announces the same address pair as the judged session's first connection and sends data of its own. 16 (thorough 120) scenarios address a second stub service that leaves a 5 ms write deadline behind at the start and after every write: their end-of-stream messages, or the agent's disconnect, arrive after those deadlines have passed. udp-late-replies: 2-4 datagrams from distinct peers sent back to back to a service that answers 40 ms late; every datagram that comes back must carry the addresses of the datagram whose content it answers. large-service-write: the service answers the first bytes with one single Write of 65536, 70000 or 200000 bytes, which must come back complete and in order."
+	return "scenario = one agent session over the real Disco transport carrying 1..4 multiplexed virtual connections (hello, 0..20 data messages of 0..4000 stamped bytes, eof), all interleavings of the per-connection sequences for 2x4 messages (70) and (thorough) 3x3 (1680), seeded interleavings beyond, UDP relay messages, unknown and duplicate connection ids, agent disconnect mid-stream, and a seeded subset in which the yield point parks the service's reader between its buffer check and its wait while data and EOF arrive; plus codec round trips of every message type against an independent encoder/decoder (IPv4/IPv6, all 65,536 ports, payload lengths 0..65000). Non-trivial = a session in which >=1 virtual connection delivered bytes to the service; distinct by scenario parameters. Also connections that share one remote ip:port and differ in the local port (same-remote). One seeded scenario in six opens a shadow session: a second agent on the same listener announces the same address pair as the judged session's first connection and sends data of its own. 16 (thorough 120) scenarios address a second stub service that leaves a 5 ms write deadline behind at the start and after every write: their end-of-stream messages, or the agent's disconnect, arrive after those deadlines have passed. udp-late-replies: 2-4 datagrams from distinct peers sent back to back to a service that answers 40 ms late; every datagram that comes back must carry the addresses of the datagram whose content it answers. large-service-write: the service answers the first bytes with one single Write of 65536, 70000 or 200000 bytes, which must come back complete and in order. late-data-after-service-close: the service ends connection 0 itself after its first bytes; once the agent has its EOF it sends two more data messages for it and goes on with connection 1."
 }
 func (prop) Assumptions() []string {
 	return []string{"the scripted agent frames messages exactly as the real agent does (type, length, body as three writes)", "termination is judged on content after the connection ended: a service-side EOF before all announced bytes were delivered is the loss witness"}
